@@ -99,7 +99,7 @@ func runProperty(eng *Engine, o *Options, start time.Time) int {
 		fmt.Fprintln(os.Stderr, "govc: -prop required")
 		return 3
 	}
-	known := loadKnown(filepath.Join(filepath.Dir(o.Out), "known_findings.json"))
+	known := loadKnown(filepath.Join(o.stateDir(), "known_findings.json"))
 	// 1. functions
 	var keys []string
 	for _, k := range eng.contracts.Order {
@@ -135,6 +135,12 @@ func runProperty(eng *Engine, o *Options, start time.Time) int {
 			}
 		}
 	}
+	baseline := loadBaseline(filepath.Join(o.stateDir(), "baseline", prop+".json"))
+	if o.UpdateBaseline {
+		baseline = nil
+	}
+	notClaimed := []string{}
+	skippedUnclaimed := 0
 	var missing []string
 	var results []*FuncResult
 	genStart := time.Now()
@@ -151,6 +157,12 @@ func runProperty(eng *Engine, o *Options, start time.Time) int {
 		var kept []*Obligation
 		for _, ob := range res.Obls {
 			if sweepKeys[k] && !ob.Implicit && ob.Kind != "cover" {
+				continue
+			}
+			if sweepKeys[k] && baseline != nil && o.Tier != "thorough" && !ob.Cover && !baseline[res.Key+"/"+ob.Name] {
+				// quick sweep: implicit obligations of contract-less functions that were not
+				// provable when the baseline was recorded are not claimed and not re-solved
+				skippedUnclaimed++
 				continue
 			}
 			if relevant(ob, prop) {
@@ -172,7 +184,6 @@ func runProperty(eng *Engine, o *Options, start time.Time) int {
 	solveS := time.Since(solveStart).Seconds()
 
 	// 2. classify
-	baseline := loadBaseline(filepath.Join(filepath.Dir(o.Out), "baseline", prop+".json"))
 	rc := 0
 	var lines []string
 	nObl, nDis, nKnown, nCover := 0, 0, 0, 0
@@ -251,14 +262,23 @@ func runProperty(eng *Engine, o *Options, start time.Time) int {
 			rp := eng.replay(o, res, ob)
 			ob.Replay = rp
 			rfile := writeReplayFile(o, prop, res, ob, rp)
-			inBase := baseline == nil || baseline[full]
+			inBase := baseline[full] || (baseline == nil && !sweepKeys[res.Key])
+			// a clause written in a contract (ensures, atcall, invariant, call-site requires, frame)
+			// that the solver refutes is a violation whether or not an obligation of that name
+			// existed when the baseline was recorded; the baseline only arbitrates the implicit
+			// safety obligations and solver timeouts
+			explicitRefuted := !ob.Implicit && ob.Res.Status == "sat"
 			switch {
 			case rp != nil && rp.Reproduced:
 				violations++
 				lines = append(lines, fmt.Sprintf("VIOLATION property=%s replay=%s obligation=%s", prop, rfile, full))
-			case inBase:
+			case inBase || explicitRefuted:
 				violations++
 				lines = append(lines, fmt.Sprintf("VIOLATION property=%s replay=%s obligation=%s no-failing-input-found", prop, rfile, full))
+			case sweepKeys[res.Key]:
+				// zero-annotation sweep: without a contract the function's context is unconstrained,
+				// so an implicit obligation that was never provable is "not claimed", not an alarm
+				notClaimed = append(notClaimed, full+" ("+ob.Res.Status+")")
 			default:
 				undecided = append(undecided, full+" ("+ob.Res.Status+", not in baseline, no replayed input)")
 			}
@@ -305,8 +325,8 @@ func runProperty(eng *Engine, o *Options, start time.Time) int {
 		fmt.Printf("UNDECIDED property=%s no obligations generated\n", prop)
 		rc = 2
 	}
-	if o.UpdateBaseline && rc == 0 {
-		saveBaseline(filepath.Join(filepath.Dir(o.Out), "baseline", prop+".json"), dischargedNames)
+	if o.UpdateBaseline && (rc == 0 || o.Sweep) {
+		saveBaseline(filepath.Join(o.stateDir(), "baseline", prop+".json"), dischargedNames)
 	}
 	// 3. evidence
 	var asm []string
@@ -331,7 +351,7 @@ func runProperty(eng *Engine, o *Options, start time.Time) int {
 	}
 	ev := evidence{PropertyID: prop, Tier: o.Tier, Seed: o.Seed, Level: "proof", WallS: round3(time.Since(start).Seconds()), Violations: violations, Assumptions: asm}
 	ev.Coverage = map[string]any{
-		"obligations": nObl, "discharged": nDis, "known_findings": nKnown, "vacuity_covers": nCover, "vacuity_covers_inconclusive": coverInconclusive,
+		"obligations": nObl, "discharged": nDis, "known_findings": nKnown, "vacuity_covers": nCover, "vacuity_covers_inconclusive": coverInconclusive, "sweep_not_claimed": notClaimed, "sweep_not_claimed_skipped_in_quick": skippedUnclaimed,
 		"checker_cmd":               fmt.Sprintf("/verif/check %s %s", prop, o.Tier),
 		"trusted_base":              tb,
 		"functions_under_contract":  funcsUnder,
@@ -353,6 +373,9 @@ func runProperty(eng *Engine, o *Options, start time.Time) int {
 		}
 	}
 	edir := filepath.Join(filepath.Dir(o.Out), "evidence")
+	if o.State != "" {
+		edir = filepath.Join(o.Out, "evidence")
+	}
 	_ = os.MkdirAll(edir, 0o755)
 	data, _ := json.MarshalIndent(ev, "", " ")
 	_ = os.WriteFile(filepath.Join(edir, prop+".json"), data, 0o644)
@@ -472,4 +495,13 @@ func (e *Engine) holdsOutside(o *Options, res *FuncResult, ob *Obligation, input
 		}
 	}
 	return false
+}
+
+// stateDir: where known_findings.json and baseline/ live (the parent of -out unless -state is given;
+// with -state, evidence goes under -out so that a self-test never overwrites committed evidence).
+func (o *Options) stateDir() string {
+	if o.State != "" {
+		return o.State
+	}
+	return filepath.Dir(o.Out)
 }
